@@ -48,3 +48,9 @@ func (mp *MemPool) VerifC04StateRoot() []byte { return mp.stateDB.GetRoot() }
 
 // VerifC04BestNo is the number of the block the pool was last notified of (mp.bestBlockInfo.No).
 func (mp *MemPool) VerifC04BestNo() uint64 { return mp.bestBlockInfo.No }
+
+// VerifC04LoadTxs is what the pool does on actor.Started: read the dump file of the previous run (mp.dumpPath).
+func (mp *MemPool) VerifC04LoadTxs() { mp.loadTxs() }
+
+// VerifC04Dump is what BeforeStop does with the pool's contents: write them to the dump file.
+func (mp *MemPool) VerifC04Dump() { mp.dumpTxsToFile() }
